@@ -1,7 +1,7 @@
 """C07 — namespaced storage views are exact, disjoint windows: decided structural clauses (DESIGN.md §5 C07)."""
 from vlib import q
 from vlib.cfg import cfg_of
-from vlib.prov import peel, fmt, is_param, contains, alts, deep_peel, same_origin
+from vlib.prov import peel, fmt, is_param, contains, alts, deep_peel, same_origin, leaves
 
 LEVEL = "other"
 LEVEL_TEXT = (
@@ -180,38 +180,72 @@ def r3(ctx, cfg):
     a = P.call_args(f, rt, rb)
     ctx.ob(R, key, "base-is-own-storage-and-order", is_param(a[0], "storage") and is_param(a[3], "order"),
            "base range on %s with order %s" % (fmt(a[0]), fmt(a[3])), fn=f, sample="storage.range(.., .., order)")
-    for idx, pname, none_ok, label in ((1, "start", lambda o: is_param(o, "namespace"), "namespace"),
-                                       (2, "end", lambda o: peel(o)[0] == "call" and peel(o)[1] == NH + "namespace_upper_bound" and is_param(peel(o)[2][0], "namespace"),
-                                        "namespace_upper_bound(namespace)")):
-        o = peel(a[idx])
-        okshape = o[0] == "agg" and o[1].endswith("Option::Some")
-        ctx.ob(R, key, "%s-bound-always-finite" % pname, okshape, "base %s bound is %s" % (pname, fmt(o)[:80]), fn=f, sample="Some(..)")
-        if not okshape:
-            continue
+    def is_upper(o):
+        o = peel(o)
+        if o[0] == "agg" and o[1].endswith("Option::Some"):
+            o = peel(o[2][0][1])
+        return o[0] == "call" and o[1] == NH + "namespace_upper_bound" and is_param(o[2][0], "namespace")
+
+    def is_concat_of(o, pname):
+        o = peel(o)
+        if o[0] == "agg" and o[1].endswith("Option::Some"):
+            o = peel(o[2][0][1])
+        return _is_concat(o, lambda x: is_param(x, "namespace"), lambda x: peel(x)[0] == "some" and is_param(peel(x)[1], pname))
+
+    for idx, pname in ((1, "start"), (2, "end")):
         # find the local holding the bound and its definitions with their guarding conditions
-        inner = ops[idx]
-        # walk back through temporaries to the user variable
-        l = _trace_local(P, f, inner, rb)
+        l = _trace_local(P, f, ops[idx], rb)
         defs = [d for d in P.defs(f).get(l, []) if not d[3]["dst"]["p"]] if l is not None else []
-        cells = {}
+        cells = {"Some": [], "None": [], None: []}
         for kind, db, di, x in defs:
             val = P.rvalue(f, x["rv"], (db, di)) if kind == "assign" else P.call_origin(f, x, db)
             conds = q.dominating_conditions(P, f, db)
             tag = None
+            others = []
             for e, c in conds:
                 if c[0] == "variant_in" and is_param(c[1], pname) and c[2] in (("Some",), ("None",)):
                     tag = c[2][0]
-            cells[tag] = val
-        ok_some = "Some" in cells and _is_concat(cells["Some"], lambda x: is_param(x, "namespace"),
-                                                 lambda x: peel(x)[0] == "some" and is_param(peel(x)[1], pname))
-        ok_none = "None" in cells and none_ok(cells["None"])
-        ctx.ob(R, key, "%s=Some->concat(namespace,%s)" % (pname, pname), ok_some and len(cells) == 2,
-               "%s bound under Some is %s" % (pname, fmt(cells.get("Some", ("unknown", "")))[:100]), fn=f,
-               sample="concat(namespace, %s)" % pname)
-        ctx.ob(R, key, "%s=None->%s" % (pname, label), ok_none and len(cells) == 2,
-               "%s bound under None is %s" % (pname, fmt(cells.get("None", ("unknown", "")))[:100]), fn=f, sample=label)
+                elif c[0] in ("bool",):
+                    others.append(c)
+            cells[tag].append((val, others))
+        ctx.ob(R, key, "%s-bound-defined-per-case" % pname, not cells[None] and len(cells["Some"]) == 1 and len(cells["None"]) >= 1,
+               "%s bound has definitions outside the Some/None cases of `%s` (%s)" % (pname, pname, {k: len(v) for k, v in cells.items()}), fn=f,
+               sample="Some: %d def, None: %d defs" % (len(cells["Some"]), len(cells["None"])))
+        ok_some = len(cells["Some"]) == 1 and is_concat_of(cells["Some"][0][0], pname)
+        ctx.ob(R, key, "%s=Some->concat(namespace,%s)" % (pname, pname), ok_some,
+               "%s bound under Some is %s" % (pname, [fmt(v)[:80] for v, _ in cells["Some"]]), fn=f, sample="concat(namespace, %s)" % pname)
+        if pname == "start":
+            ok_none = len(cells["None"]) == 1 and is_param(cells["None"][0][0], "namespace")
+            ctx.ob(R, key, "start=None->namespace", ok_none, "start bound under None is %s" % [fmt(v)[:80] for v, _ in cells["None"]], fn=f, sample="namespace")
+            # the start bound is always finite (inclusive lower end of the window)
+            so = peel(a[1])
+            ctx.ob(R, key, "start-bound-is-Some", so[0] == "agg" and so[1].endswith("Option::Some"), "base start bound is %s" % fmt(so)[:80], fn=f, sample="Some(&start)")
+        else:
+            kinds = []
+            for v, others in cells["None"]:
+                pv = peel(v)
+                if pv[0] == "agg" and pv[1].endswith("Option::None"):
+                    # the condition selecting the open end may look at the namespace only
+                    lv = set()
+                    for c in others:
+                        for arg in c[1][1]:
+                            lv |= {x[2] for x in leaves(arg) if x[0] == "param"}
+                    kinds.append("unbounded" if lv <= {"namespace"} and others else "unbounded?")
+                elif is_upper(v):
+                    kinds.append("upper")
+                else:
+                    kinds.append("other:" + fmt(v)[:60])
+            ctx.ob(R, key, "end=None->namespace_upper_bound(namespace)", "upper" in kinds and all(k in ("upper", "unbounded") for k in kinds),
+                   "end bound under None is %s" % kinds, fn=f, sample="namespace_upper_bound(namespace)")
+            # necessary condition of "exactly the entries whose raw key starts with the prefix" for EVERY namespace path: the empty
+            # path and a prefix of 0xFF bytes only have no finite exclusive upper bound, so the end handed to the base store
+            # must be able to be unbounded (a constant Some(..) makes the window of those namespaces empty)
+            ctx.ob(R, key, "end=None-can-be-unbounded", "unbounded" in kinds,
+                   "the end bound handed to the base store is always finite (%s): for the empty namespace path (and a prefix of 0xFF bytes only) "
+                   "no finite exclusive upper bound exists, so an open-ended range on such a view returns nothing" % kinds, fn=f,
+                   sample="None when the namespace has no upper bound, else Some(upper bound)")
     # yielded keys are trimmed by the prefix; values untouched
-    clos = [g for g in F.lexical(key) if g.kind == "closure"]
+    clos = [g for g in F.lexical(key) if g.kind == "closure" and (P.closure_use(g) or (None, None, {"callee": {"key": ""}}))[2]["callee"]["key"] == "std::iter::Iterator::map"]
     ok = len(clos) == 1
     if ok:
         g = clos[0]
